@@ -78,7 +78,7 @@ def run_impl(case):
         kw = {'batch_size': case.get('batch', 1000)}
         if case.get('flags'):
             kw['updated_column'] = '_upd'
-        out = run_stream(res, [DF.dump_to_sql({'t': spec}, engine=engine, **kw)])
+        out = run_stream(res, [DF.dump_to_sql({'t': spec}, engine=engine, **kw)], rerun=False)
         if 'error' in out:
             return {'error': out['exc']}
         down = out['rows'][0]
@@ -96,7 +96,7 @@ def run_impl(case):
         kw = {'batch_size': d['batch'], 'use_bloom_filter': d['bloom']}
         if case['flags']:
             kw['updated_column'] = '_upd'
-        out = run_stream(res, [DF.dump_to_sql({'t': spec}, engine=engine, **kw)])
+        out = run_stream(res, [DF.dump_to_sql({'t': spec}, engine=engine, **kw)], rerun=False)
         if 'error' in out:
             steps.append({'error': out['exc']})
             break
